@@ -987,6 +987,35 @@ func permuteOps(ops []OpSpec, limit int, rng *Rng) [][]OpSpec {
 	return out
 }
 
+// oracleLeftovers (C10): a finished bundle directory holds the manifest and the package
+// directories the bundle reports, nothing else - in particular no temporary directory.
+func oracleLeftovers(bb *builtBundle) (vs []Violation) {
+	if bb.obs.Bundle == nil {
+		return nil
+	}
+	known := map[string]bool{"terraform-sources.json": true}
+	for _, d := range bb.obs.Bundle.Dirs {
+		known[strings.SplitN(d, "/", 2)[0]] = true
+	}
+	seen := map[string]bool{}
+	for _, l := range bb.obs.Listing {
+		f := strings.SplitN(l, " ", 2)
+		if len(f) != 2 {
+			continue
+		}
+		top := strings.SplitN(f[1], "/", 2)[0]
+		if !known[top] && !seen[top] {
+			seen[top] = true
+			what := "an entry no package of the bundle lives in"
+			if strings.HasPrefix(top, ".tmp-") {
+				what = "a temporary directory"
+			}
+			vs = append(vs, viol("C10", fmt.Sprintf("the finished bundle directory contains %q: %s", top, what)))
+		}
+	}
+	return vs
+}
+
 func oracleOrder(w *World, ops []OpSpec, base *builtBundle, workDir string, limit int, rng *Rng) (vs []Violation, runs int) {
 	if !noErrors(&base.obs) || base.obs.Bundle == nil {
 		return nil, 0
@@ -1090,6 +1119,7 @@ func runBundleStream(o *Opts) {
 		os.MkdirAll(d, 0o755)
 		bb := runBuild(w, ops, d, nil, nil, 20*time.Second)
 		vs := oracleBuild(w, ops, bb)
+		vs = append(vs, oracleLeftovers(bb)...)
 		limit := 3
 		if o.Tier == "thorough" || o.Focus {
 			limit = 24
